@@ -442,3 +442,14 @@ func ReplayExec(path string) int {
 	fmt.Println("not reproduced")
 	return 0
 }
+
+// GenNth reproduces the idx-th sampled program of a check run (debugging aid).
+func GenNth(prop string, seed int64, idx int) *Program {
+	rng := rand.New(rand.NewSource(seed*7919 + int64(len(prop))*104729 + int64(prop[2])*31))
+	opts := Profile(prop)
+	var p *Program
+	for i := 0; i <= idx; i++ {
+		p = Gen(rng, opts, fmt.Sprintf("g%d-s%d", i, seed))
+	}
+	return p
+}
